@@ -437,6 +437,9 @@ func (b *ByteSlice) Repeat(obj Object) Object {
 	if err != nil {
 		return err
 	}
+	if count < 0 {
+		return Errorf("value error: byte_slice.repeat count must be >= 0 (%d given)", count)
+	}
 	return NewByteSlice(bytes.Repeat(b.value, int(count)))
 }
 
